@@ -184,7 +184,7 @@ func (r *verifReport) finish() int {
 		_ = os.MkdirAll(filepath.Dir(file), 0o755)
 		b, _ := json.MarshalIndent(v, "", " ")
 		_ = os.WriteFile(file, b, 0o644)
-		fmt.Printf("  finding: %s\n    %s\n    path: %s\n", v.Sig, v.Detail, verifPathString(v.Path))
+		fmt.Printf("  finding: %s\n    %s\n    sys: %s seed: %d\n    path: %s\n", v.Sig, v.Detail, v.Sys, v.Seed, verifPathString(v.Path))
 		fmt.Printf("VIOLATION property=%s replay=%s\n", r.Prop, file)
 	}
 	r.writeEvidence(nviol, knownSeen)
@@ -358,6 +358,39 @@ func VerifMain(args []string) int {
 		fmt.Printf("%s %s: states=%d transitions=%d maximal_paths=%d evaluations=%d nontrivial=%d outcomes=%d exhaustive=%v wall=%.1fs exit=%d\n",
 			prop, tier, r.States, r.Transitions, r.MaxPaths, r.Evals, r.Nontrivial, len(r.Outcomes), r.Exhaustive, time.Since(r.start).Seconds(), code)
 		return code
+	case "trace":
+		// trace <prop> <sysid> <event> <event> ...   (events as printed: "deliver(0)" "reorder(1,2)")
+		sys := verifBuildSys(args[1], args[2], verifSeed())
+		if sys == nil {
+			return 2
+		}
+		w := sys.Init()
+		verifTraceDump(w)
+		for _, a := range args[3:] {
+			var ev verifEv
+			a = strings.TrimSuffix(a, ")")
+			ix := strings.Index(a, "(")
+			ev.K = a[:ix]
+			fs := strings.Split(a[ix+1:], ",")
+			ev.I, _ = strconv.Atoi(fs[0])
+			if len(fs) > 1 {
+				ev.J, _ = strconv.Atoi(fs[1])
+			}
+			verifTraceOn = true
+			res := sys.Apply(w, ev)
+			verifTraceOn = false
+			fmt.Printf("== %s\n", ev)
+			for _, f := range res {
+				fmt.Printf("   FINDING %s: %s\n", f.Sig, f.Detail)
+			}
+			if sys.OnNew != nil {
+				for _, f := range sys.OnNew(w) {
+					fmt.Printf("   FINDING(probe) %s: %s\n", f.Sig, f.Detail)
+				}
+			}
+			verifTraceDump(w)
+		}
+		return 0
 	case "replay":
 		b, err := os.ReadFile(args[1])
 		if err != nil {
@@ -414,4 +447,45 @@ func verifCount(name string, n int64) {
 	verifStatMu.Lock()
 	verifStats_[name] += n
 	verifStatMu.Unlock()
+}
+
+var verifTraceOn bool
+
+func verifTraceDump(w *verifWorld) {
+	for i, p := range w.P {
+		c := p.C
+		fmt.Printf("   %s: %s/%s keyids our=%d their=%d ssid=%x resend=%d mayRetransmit=%d  queue→%s:", p.Name, verifMsgStateName(c), verifAuthStateName(c), c.keys.ourKeyID, c.keys.theirKeyID, c.ssid[:4], len(c.resend.messages.m), c.resend.mayRetransmit, p.Name)
+		if i < len(w.Q) {
+			for _, m := range w.Q[i] {
+				fmt.Printf(" [%s]", verifMsgKind(m))
+			}
+		}
+		fmt.Println()
+	}
+}
+
+func verifMsgKind(m []byte) string {
+	switch guessMessageType(m) {
+	case msgGuessDHCommit:
+		return "COMMIT"
+	case msgGuessDHKey:
+		return "DHKEY"
+	case msgGuessRevealSig:
+		return "REVEALSIG"
+	case msgGuessSignature:
+		return "SIG"
+	case msgGuessData:
+		return "DATA"
+	case msgGuessQuery:
+		return "QUERY"
+	case msgGuessError:
+		return "ERROR"
+	case msgGuessFragment:
+		return "FRAG"
+	case msgGuessTaggedPlaintext:
+		return "TAGGED"
+	case msgGuessNotOTR:
+		return "PLAIN:" + verifTrunc(m)
+	}
+	return "?"
 }
